@@ -865,7 +865,16 @@ func (r *runningStep) provideEnablingInput(input map[string]any) error {
 	}
 	// Check to make sure it's enabled.
 	// This is an optional field, so no input means enabled.
-	enabled := input["enabled"] == nil || input["enabled"] == true
+	enabled := true
+	if input["enabled"] != nil {
+		// A literal written in the workflow file arrives in its YAML string form ("true", "no", ...):
+		// interpret it the way the stage's input schema does instead of comparing it with the Go value true.
+		unserializedEnabled, err := schema.NewBoolSchema().Unserialize(input["enabled"])
+		if err != nil {
+			return fmt.Errorf("invalid value for 'enabled' of step %s/%s (%w)", r.runID, r.pluginStepID, err)
+		}
+		enabled = unserializedEnabled.(bool)
+	}
 	r.enabledInputAvailable = true
 	// As for the deploy input: once the step has been given what it is waiting for, it must not be
 	// counted as waiting anymore, however long its goroutine takes to pick the input up.
